@@ -72,7 +72,11 @@ Matches(r, e) ==
 
 NewRowAsGiven ==
   (Is("add_many") /\ Ok) =>
-     \A u \in Dt \ Dp : \E i \in DOMAIN ev.batch : ev.batch[i].u = u /\ Matches(tab[u], ev.batch[i])
+     \* a URL repeated inside the batch: the later occurrences are "adding it again" and change nothing,
+     \* so the stored row is the one given by its FIRST occurrence
+     \A u \in Dt \ Dp : \E i \in DOMAIN ev.batch :
+        /\ ev.batch[i].u = u /\ (\A j \in DOMAIN ev.batch : j < i => ev.batch[j].u # u)
+        /\ Matches(tab[u], ev.batch[i])
 
 -----------------------------------------------------------------------------
 (* delete *)
